@@ -67,7 +67,7 @@ class C01(Profile):
             rng, engines=["it", "it2"] if rng.random() < 0.5 else ["it"],
             weights={**UNARY_W, "chain": 2, "mat": 1, "xfer": 1, "leaf": 1, "run": 2, "reuse_mat": 0.6,
                      "cursor_open": 1.5, "pull": 3, "abandon": 0.4, "custom": 1.5, "process": 0.4,
-                     "flag_on_processed": 0.4, "redeclared_twin": 0.6, "ephemeral": 1.0},
+                     "flag_on_processed": 0.4, "redeclared_twin": 0.6, "ephemeral": 1.0, "mark": 0.8},
             max_ops=16 if big else 10, udf_p=0.08, special_leaf_p=0.06, pipeline_p=0.3, flags_p=0.1, redeclare_p=0.12,
             bounds=("exact", "exact", "loose", "zeromin", "unbounded"),
         )
@@ -121,7 +121,7 @@ def multi_gen(rng, tier, *, weights, flags_p=0.5, engines=None, max_ops=None, **
     return {"config": swarm_config(rng), "ops": g.build()}
 
 
-MULTI_W = {**UNARY_W, "xfer": 4, "mat": 1.2, "chain": 1, "join": 1.2, "leaf": 1, "chain_empty": 0.3, "roundtrip_empty": 0.25, "mark": 0.6, "custom": 0.8, "marker_tower": 0.25}
+MULTI_W = {**UNARY_W, "xfer": 4, "mat": 1.2, "chain": 1, "join": 1.2, "leaf": 1, "chain_empty": 0.3, "roundtrip_empty": 0.25, "mark": 0.6, "custom": 1.2, "marker_tower": 0.25}
 
 
 class C03(Profile):
@@ -414,6 +414,12 @@ class C09(Profile):
             if run.nofault_variant_shows(kind, run.w.op_index):
                 return None
             return "C09"
+        if kind == "exec_exception":
+            # a relation that has been evaluated successfully and now cannot be: the earlier evaluation left something
+            # behind (unless a fault interrupted an evaluation in between, which is the case above)
+            if entry is not None and getattr(entry, "eval_ok", False) and not run.w.fault.total_fired:
+                return "C09"
+            return None
         return self.claims.get(kind)
     dn_rule = ("long mixed histories of factory calls, executions, cursors, process(), diagnostics, rejected and faulted "
                "calls over one shared pool; after every step every earlier relation is re-fingerprinted; distinct = op-kind "
